@@ -33,6 +33,8 @@ func Pick(t *rapid.T, label string, xs []string) string { return pick(t, label, 
 var Atoms = []string{
 	// schemes
 	"http", "https", "ws", "wss", "ftp", "file", "foo", "a", "x-y.z+1", "HTTP", "FiLe", "hTtPs", "9x", "gopher",
+	// code points whose Unicode case mapping lands in ASCII (Kelvin sign, dotted capital I, long s, Angstrom)
+	"\u212a", "\u0130", "\u017f", "\u212b", "\u212aa:", "htt\u212a:", "f\u0130le:", "\u0130:", "\u0131", "\u212a",
 	// delimiters
 	":", ":", ":", "/", "/", "/", "//", "//", "\\", "\\", "\\\\", "?", "?", "#", "#", "@", "@", "[", "]", ";", "=", "&",
 	// dot segments
@@ -222,7 +224,7 @@ func Noise(t *rapid.T, label, s string) string {
 // ---------------------------------------------------------------------------------------------
 // G-ref
 
-var refShapes = []string{"", "#", "#f", "?", "?q", "?q#f", "/", "/p", "/p/q?x#y", "//", "//h", "//h/p", "//h:81/p", "//u:p@h/p", "\\\\h", "\\\\h\\p", "/\\h", "\\/h",
+var refShapes = []string{"\u212aa:x", "f\u0130le:x", "\u017f:x", "", "#", "#f", "?", "?q", "?q#f", "/", "/p", "/p/q?x#y", "//", "//h", "//h/p", "//h:81/p", "//u:p@h/p", "\\\\h", "\\\\h\\p", "/\\h", "\\/h",
 	"p", "p/q", "./", "./p", "../", "..", "../..", "../../x", ".", "./.", "a/../b", "%2e%2e/x", ".%2E/", "C|/x", "C:", "c:/x", "/C|/x", "/c:", "C|", "C|\\x", "//C|/x", "///x", "////x",
 	"?#", "#?", " ", "\t", "x y", ";p", "a:", ":a", "1:", "/..", "/../..", "/./", "//h?q", "//h#f", "//@", "//:80", "//[::1]", "//1.2.3.4", "//h\\p", "\\", "\\p", "/\\", "\\\\", "//h:", "?\xff", "#\xff", "p\x00",
 	"file:", "file:p", "file:/p", "file://h/p", "file:C|/x", "file:..", "file:?q", "file:#f", "file:\\\\h"}
